@@ -16,7 +16,8 @@ THEOREMS = ["C16_include_flattens", "C16_include_moved", "C16_fuel_monotone", "C
             "C16_blank_insertion", "C16_blank_insertion_columns", "C16_layout_link", "C16_blank_lines_assemble",
             "C16_symbols_equal", "C16_line_replacement_assemble", "C16_comment_block_at_top_assemble",
             "C16_comment_block_between_assemble", "C16_comments_inserted_parse",
-            "C16_include_moved_source"]
+            "C16_include_moved_source",
+            "C16_include_nested_source"]
 
 
 def instantiate(gen_q):
